@@ -68,6 +68,10 @@ CHECKS = {
    technique="bounded-exhaustive enumeration of all well-typed query programs up to pipeline depth d from a typed grammar, each executed by the real engine and by an independent reference interpreter over the Go API (differential), plus document-purity and determinism checks",
    text="Every well-typed program up to pipeline depth 3 (quick; reduced step alphabet from the third step) / 4 (thorough) over 34 accessors, First/Last(0..4), Length, NodesWithTagPath, Only (7 chains x 6 operators x numeric/text/mixed constants), object construction, variable forms and Combine, on 6 documents; the JSON-normalised engine result must equal the reference interpreter's (map in order, prefix/suffix, len, order-preserving filter with the documented comparison rule, concatenation, tag-path lookup, substitution); the document must look untouched afterwards; a second evaluation must give the same result.",
    note="Trusts the hand-written signature table and the reference interpreter in harness/cmd/c16. Missing values are judged by what the (nil-safe) Go API call gives; if that call panics nothing is demanded. null and an empty list are the same 'nothing'. One known finding (nil list through First/Last) is pinned by the repository's own tests."),
+ "C17": dict(engine="E3", category="exploration", design_ref="§4 C17",
+   technique="bounded-exhaustive enumeration of living-person roles (all single roles and all role pairs) x visibility x all 64 page-group subsets x jobs, with an exact marker search over every published file and a byte-level hide differential",
+   text="A fixed cast of dead people plus one or two living people in every role (14 roles, all pairs), every personal string a unique marker token, published through the real Publisher into memory under hide/placeholder x all 64 page-group subsets x jobs {1,2}, also after the same document object was published with 'show': no file name, body or link target may contain a living marker; in hide mode a second document that differs only in the living people's data must publish byte-identically; dead people's pages must exist with their names; 'show' is the positive control for the search.",
+   note="Two root causes are known findings (surname list and place pages ignore -living; 9 signatures). Pages that panic while rendering are counted so a masked leak is not reported clean. Quick tier runs role pairs on 4 of the 64 page-group subsets."),
  "C20": dict(engine="E3", category="exploration", design_ref="§4 C20",
    technique="bounded-exhaustive enumeration of skeleton family graphs x all slot assignments with up to k deviations from threshold lattices x all record/child permutations, against an independent reference evaluator of the documented warning conditions",
    text="Skeleton documents (two families sharing a parent with 0-3 children; a 5-record family) with each date/sex slot either at a no-warning default or at a value clearly on one side of a documented threshold; every assignment with up to 2 (quick) / 3 (thorough) deviating slots; all 120 record orders x both child orders of the small skeleton; the multiset of (warning name, people, context) from Document.Warnings() must equal the reference evaluator's.",
